@@ -173,6 +173,22 @@ func chartTitle(objName string) string {
 	return fmt.Sprintf("Charts for %s", start)
 }
 
+// validChartName reports whether name is the name of a chart page: a date
+// (charts for a single day) or two dates joined by an underscore (aggregate
+// charts for a date range).
+func validChartName(name string) bool {
+	start, end, aggregate := strings.Cut(name, "_")
+	if _, err := time.Parse(telemetry.DateOnly, start); err != nil {
+		return false
+	}
+	if aggregate {
+		if _, err := time.Parse(telemetry.DateOnly, end); err != nil {
+			return false
+		}
+	}
+	return true
+}
+
 type chartsPage []string
 
 func (chartsPage) Breadcrumbs() []breadcrumb {
@@ -183,6 +199,12 @@ func handleCharts(render renderer, chartBucket storage.BucketHandle) content.Han
 	return func(w http.ResponseWriter, r *http.Request) error {
 		ctx := r.Context()
 		if p := strings.TrimPrefix(r.URL.Path, "/charts/"); p != "" {
+			if !validChartName(p) {
+				// Not the name of a chart object. In particular, p is the decoded
+				// path: it may contain "../" (sent as %2e%2e%2f), which must not
+				// reach the bucket as part of an object name.
+				return content.Status(w, http.StatusNotFound)
+			}
 			return handleChart(ctx, w, p, render, chartBucket)
 		}
 		it := chartBucket.Objects(ctx, "")
